@@ -20,7 +20,7 @@ def convert_state(lbl, st):
             'waitingOther': st.get('waitingOther', False), 'tListing': st.get('tListing', False),
             'tStore': st.get('tStore', False), 'tPass': st.get('tPass', False),
             'uncaptured': st['uncaptured'], 'nbucket': len(b), 'committedN': st['committedN'],
-            'newestImg': img_of(b[-1]['img']) if b else {}}
+            'newestImg': img_of(b[-1]['img']) if b else {}, 'newestTxn': b[-1]['txn'] if b else 0}
 
 
 def behaviours(r):
